@@ -1,0 +1,9 @@
+//go:build !verif
+
+package babble
+
+import "net"
+
+func simListen(addr string) (net.Listener, bool) { return nil, false }
+
+func simDial(addr string) (net.Conn, bool, error) { return nil, false, nil }
